@@ -505,7 +505,7 @@ def run_cli(args, cwd=None, fsize_limit=None, timeout=60, stdout_path=None):
 # ---------------------------------------------------------------- replay contract: ./check Cxx --replay <file>
 # (design-notes/BUILDING.md, "Replays").  Every check's replay(run, path) rebuilds the stored case, runs it (and only it)
 # through the evaluation path of the normal run against REPO's current working tree and ends with replay_verdict().
-STAGE_MODULES = {"T01": "t01", "T02": "t02", "T03": "t03", "T04": "t04", "T05": "t05", "T06": "t06", "T07": "t07"}
+STAGE_MODULES = {"T01": "t01", "T02": "t02", "T03": "t03", "T04": "t04", "T05": "t05", "T06": "t06", "T07": "t07", "T09": "t09"}
 _NO_INPUT_PREFIXES = ("correspondence broken", "proof obligation", "assumption audit", "coqchk ", "known finding", "open finding")
 
 
@@ -536,7 +536,7 @@ def stage_of(rp):
     s = rp.get("stage")
     if isinstance(s, str) and s in STAGE_MODULES:
         return s
-    m = re.match(r"^(T0[1-7])_corr\.", str(rp.get("correspondence") or ""))      # files written before the key existed
+    m = re.match(r"^(T0[1-79])_corr\.", str(rp.get("correspondence") or ""))      # files written before the key existed
     if m:
         return m.group(1)
     w = rp.get("world")
